@@ -76,6 +76,12 @@ def check_case(case, ctx):
         raise Violation(f"index.{what}", f"original matches up to {c1['idx']} ({c1['n_emit']} obs), transformed ({tf}) up to {c2['idx']} ({c2['n_emit']})")
     tol = 1e-6 if "translate" in tf else 1e-9
     if not base.close(c1["lp"], c2["lp"], tol):
+        trailing = (c1["keys"] and c1["keys"][-1][-1] != 0) or (c2["keys"] and c2["keys"][-1][-1] != 0)
+        if ("reorder" in tf and trailing and case["config"].get("non_emitting_states") and
+                ctx.known("KF-NE-ORDER", "after an early stop the best path ends in a run of non-emitting states whose content depends on "
+                                         "the order in which neighbours are listed")):
+            ctx.record(case, False, ["excluded:KF-NE-ORDER"])
+            return
         raise Violation(f"probability.{what}", f"original best log-probability {c1['lp']}, transformed ({tf}) {c2['lp']}")
     want = [[ren[x] for x in k[:-2]] + list(k[-2:]) for k in c1["keys"]]
     classes = ["family:" + case["config"]["family"]] + ["tf:" + n for n in names]
